@@ -61,7 +61,7 @@ pub fn __abs_single_player_iter(work: &mut Workspace) -> (r: f64)
                   ("abstract", "__abs_single_player_iter(&mut work); // @ob C07.V.solve_external_multi.workspace_fresh")),
                  (r"^reg_two = single_player_iter::<false>\( root, &mut chance_infosets, \[&mut player_two, &mut player_one\], target, &mut work, it, params, \);$",
                   ("abstract", "__abs_single_player_iter(&mut work); // @ob C07.V.solve_external_multi.workspace_fresh")),
-                 (r"^if f64::max\(reg_one, reg_two\) < max_reg \{ break; \}$", ("abstract_break", "if __abs_stop() { break; }")),
+                 (r"^if .* \{ break; \}$", ("abstract_break", "if __abs_stop() { break; }")),
              ]},
              loops={0: dict(kind="for", head="invariant work.fresh(), // @ob C07.V.solve_external_multi.workspace_fresh")},
         ),
